@@ -29,7 +29,7 @@ ALPHA = {
     "literals-ldx1": (["-literals"], {}, ["-ldflags=-X=main.version=v1"]),
     "literals-ldx2": (["-literals"], {}, ["-ldflags=-X=main.version=v2"]),
 }
-QUICK = ["default", "literals", "seedLong1", "seedLong2", "tags", "literals-ldx1"]
+QUICK = ["default", "tiny", "literals", "seedA", "seedLong1", "seedLong2", "gogarble-lib", "ctrlflow", "tags", "ldx1", "literals-ldx1"]
 names = QUICK if tier == "quick" else list(ALPHA)
 
 def sources(state):
@@ -72,9 +72,18 @@ def reference(cfgname, state_key):
 
 # histories
 hist = []
-for c1 in names:
-    for c2 in names:
+if tier == "quick":
+    # quick: every configuration against the default one in both orders (a missing cache-key input shows as soon as two
+    # configurations that differ in that input follow each other), plus the pairs that differ in a *value* only
+    for c in names:
+        hist.append([("build", "default"), ("build", c)])
+        if c != "default": hist.append([("build", c), ("build", "default")])
+    for c1, c2 in (("seedLong1", "seedLong2"), ("seedLong2", "seedLong1"), ("seedA", "seedLong1"), ("literals", "literals-ldx1"), ("literals-ldx1", "literals"), ("ldx1", "literals-ldx1"), ("tiny", "literals")):
         hist.append([("build", c1), ("build", c2)])
+else:
+    for c1 in names:
+        for c2 in names:
+            hist.append([("build", c1), ("build", c2)])
 EDITS = [("main", 1), ("lib", 1), ("leaf", 1)] + ([("main", 2), ("lib", 2), ("leaf", 2)] if tier != "quick" else [])
 for c in (names[:3] if tier == "quick" else names):
     for e in EDITS:
